@@ -5,7 +5,7 @@ can succeed by object identity.  "pair" cases: two separately built objects of o
 chosen by field-choice vectors over the small domains in FIELDS, each brought about by a provenance (fresh constructor;
 donor hashed, then model_copy(update=...); donor hashed, then attribute assignment; hashed, then model_copy(deep=True);
 hashed, then model_validate(model_dump(exclude_unset=True)); constructor with every optional field passed explicitly with
-its default).  In "enc" cases the vocabulary tags and the query tags may be written differently (vprov / qprov).
+its default; constructor giving every Term two extra attributes in the order a, b or b, a).  In "enc" cases the vocabulary tags and the query tags may be written differently (vprov / qprov).
 """
 import datetime
 import uuid as _uuid
@@ -288,7 +288,8 @@ MANIFEST = {
              "(constructor; hashed donor then model_copy(update) / attribute assignment; hashed then deep copy / dump-validate "
              "round trip; constructor with every optional field passed explicitly), and vocabulary / query tags of the encoders "
              "written differently, so a hash that remembers a derivation or sees which fields were set is refuted (controls "
-             "history/MC_Encoding_hash_memo, _hash_fields_set, _eq_uri; the encoder is also judged against the OBSERVED equality "
+             "history/MC_Encoding_hash_memo, _hash_fields_set, _hash_extras_order, _eq_uri; Terms also carry two extra "
+             "attributes given in either order; the encoder is also judged against the OBSERVED equality "
              "of query and vocabulary tags, EncodeIffObservedEqual) -- plus random vocabularies of <= 8 of 15 tags "
              "with lists of <= 8, and TLC validates the observations clause by clause."),
     "note": ("trusted: TLC, binder checks/c19.py (encoder; objects rebuilt for every use so identity cannot help); the hash "
